@@ -36,10 +36,10 @@ class Enc:
         return out
 
 
-def rand_image(rnd, tmax=9, maxtr=3):
+def rand_image(rnd, tmax=9, maxtr=3, tmin=0):
     init = rnd.randint(0, 1)
     n = rnd.randint(0, maxtr - init)
-    ts = sorted(rnd.sample(range(0, tmax + 1), n))
+    ts = sorted(rnd.sample(range(tmin, tmax + 1), n))
     return ([-INF] if init else []) + ts + [INF]
 
 
@@ -140,15 +140,15 @@ def base_record(pid, c, lanes, d, poldep, inw):
                 actrl=[], abuf=[], raised=False, offgrid=False, strip=False)
 
 
-def rand_inputs(rnd, c, lanes, multi=True, tmax=9):
+def rand_inputs(rnd, c, lanes, multi=True, tmax=9, tmin=0):
     inw = []
     for n in c.s_nodes:
         row = []
         for p in range(lanes):
             if multi and rnd.random() < 0.5:
-                row.append(rand_image(rnd, tmax))
+                row.append(rand_image(rnd, tmax, tmin=tmin))
             else:
-                row.append(stim_image(rnd.randint(0, 1), rnd.randint(0, tmax), rnd.randint(0, 1)))
+                row.append(stim_image(rnd.randint(0, 1), rnd.randint(tmin, tmax), rnd.randint(0, 1)))
         inw.append(row)
     return inw
 
